@@ -919,8 +919,11 @@ time_zone::absolute_lookup TimeZoneInfo::BreakTime(
       const std::int_fast64_t diff =
           unix_time - transitions_[timecnt - 1].unix_time;
       const year_t shift = diff / kSecsPer400Years + 1;
-      const auto d = seconds(shift * kSecsPer400Years);
-      time_zone::absolute_lookup al = BreakTime(tp - d);
+      // Note: (shift * kSecsPer400Years) can exceed diff, and then overflow
+      // when the last transition is early, so we apply the shift in two steps.
+      const auto d = seconds((shift - 1) * kSecsPer400Years);
+      time_zone::absolute_lookup al =
+          BreakTime((tp - d) - seconds(kSecsPer400Years));
       al.cs = YearShift(al.cs, shift * 400);
       return al;
     }
